@@ -76,6 +76,7 @@ type h2Listener struct {
 	stream bool
 	ip     net.IP
 	unspec bool
+	dialIP net.IP // stream listener on the wildcard address: the address clients connect to
 	vetoed []net.IP
 	vetoedFor [][2]net.IP // (client IP, peer IP): refused for that client only
 	pc     *simPC
@@ -334,6 +335,9 @@ func (w *h2World) manager(lid int) *allocation.Manager {
 func (w *h2World) lisAddr(lid int) net.Addr {
 	l := w.lis[lid]
 	if l.stream {
+		if l.dialIP != nil {
+			return &net.TCPAddr{IP: l.dialIP, Port: l.ln.addr.Port}
+		}
 		return l.ln.addr
 	}
 	return l.pc.addr
@@ -349,7 +353,7 @@ func (w *h2World) client(lid int, ip net.IP, port int) *h2Client {
 	c := &h2Client{w: w, lid: lid}
 	if w.lis[lid].stream {
 		c.taddr = &net.TCPAddr{IP: ip, Port: port}
-		ca, _, err := w.n.dial(c.taddr, w.lis[lid].ln.addr, "", "")
+		ca, _, err := w.n.dial(c.taddr, w.lisAddr(lid).(*net.TCPAddr), "", "")
 		if err != nil {
 			return nil
 		}
